@@ -144,6 +144,45 @@ mut("c14_dag_to_cpdag_in_place_labels", "C14", "sempler/utils.py",
     "    labelled = ordered\n    labelled[ordered != 0] = UNK\n",
     "label_edges relabels the caller's ordered matrix in place")
 
+mut("c14_topological_ordering_in_place_restore_no_finally", "C14", "sempler/utils.py",
+    """    A = A.copy()
+    sinks = list(np.where(A.sum(axis=0) == 0)[0])
+    ordering = []
+    while len(sinks) > 0:
+        i = sinks.pop()
+        ordering.append(i)
+        for j in ch(i, A):
+            A[i, j] = 0
+            if len(pa(j, A)) == 0:
+                sinks.append(j)
+    # If A still contains edges there is at least one cycle
+    if A.sum() > 0:
+        raise ValueError("The given graph is not a DAG")
+    else:
+        return ordering
+""",
+    """    if not (isinstance(A, np.ndarray) and A.flags.writeable):
+        A = np.array(A)
+    saved = A.copy()
+    sinks = list(np.where(A.sum(axis=0) == 0)[0])
+    ordering = []
+    while len(sinks) > 0:
+        i = sinks.pop()
+        ordering.append(i)
+        for j in ch(i, A):
+            A[i, j] = 0
+            if len(pa(j, A)) == 0:
+                sinks.append(j)
+    # If A still contains edges there is at least one cycle
+    cyclic = A.sum() > 0
+    A[:] = saved
+    if cyclic:
+        raise ValueError("The given graph is not a DAG")
+    else:
+        return ordering
+""",
+    "works in place on the caller's matrix and restores it at the end, not in a finally: only an exception raised "
+    "from inside one of its numpy calls (failing allocation, Ctrl-C) leaves the caller's matrix eaten; the seam np.*")
 mut("c14_nd_str_sets_printoptions", "C14", "sempler/normal_distribution.py",
     "        return \"mean:\\n\" + str(self.mean) + \"\\ncovariance:\\n\" + str(self.covariance)",
     "        np.set_printoptions(precision=4, suppress=True)\n        return \"mean:\\n\" + str(self.mean) + \"\\ncovariance:\\n\" + str(self.covariance)",
